@@ -119,6 +119,15 @@ class DiagonalOperator(EndomorphicOperator):
                 active_axes += self._domain.axes[space_index]
 
             self._ldiag = diagonal.val
+            # bring the sub-domains of the diagonal into the order in which
+            # they appear in `domain` before broadcasting
+            order = sorted(range(len(self._spaces)),
+                           key=lambda i: self._spaces[i])
+            if order != list(range(len(order))):
+                axes = []
+                for i in order:
+                    axes += diagonal.domain.axes[i]
+                self._ldiag = np.transpose(self._ldiag, axes)
             self._reshaper = [shp if i in active_axes else 1
                               for i, shp in enumerate(self._domain.shape)]
             self._ldiag = self._ldiag.reshape(self._reshaper)
